@@ -419,7 +419,7 @@ class C16(World):
                         st = dict(st, tweak=True, fault="same_mtime")
                         st.pop("frac", None)
                         follow_with_target = True
-                st["style"] = dict(units=args.random() < 0.8, ints=args.random() < 0.4, bom=args.random() < 0.25, extra=args.random() < 0.3)
+                st["style"] = dict(units=args.random() < 0.8, ints=args.random() < 0.4, bom=args.random() < 0.25, extra=args.random() < 0.3, xlsm=args.random() < 0.2)
                 if args.random() < 0.25:
                     st["stem"] = args.choice(HOSTILE_STEMS)  # used only when the problem itself is hostile (JSON channel)
                 if fault:
@@ -620,7 +620,7 @@ class C16(World):
                         ch = "json"  # hostile names only through dict/JSON/model channels
                     if stem in HOSTILE_STEMS and not (prob["hostile"] and ch in ("json", "json_vu")):
                         stem = "case"
-                    style = dict(dict(units=True, ints=False, bom=False, extra=False), **(st.get("style") or {}))
+                    style = dict(dict(units=True, ints=False, bom=False, extra=False, xlsm=False), **(st.get("style") or {}))
                     if has_blanks(prob["data"]):
                         style["units"] = True  # a blank cell only means "default" in a unit-bearing column
                     no_options = ch in ("csv_dir", "csv_tuple") and prob["options"]
@@ -643,11 +643,11 @@ class C16(World):
                         exact = True
                     elif ch == "csv_dir":
                         src = os.path.join(d, stem)
-                        write_csv(src, data, keep, **{k_: v_ for k_, v_ in style.items() if k_ != "x"})
+                        write_csv(src, data, keep, **{k_: v_ for k_, v_ in style.items() if k_ != "xlsm"})
                     elif ch == "csv_tuple":
-                        src = write_csv(os.path.join(d, stem), data, keep, names=("s_" + stem + ".csv", "u_" + stem + ".csv"), **style)
+                        src = write_csv(os.path.join(d, stem), data, keep, names=("s_" + stem + ".csv", "u_" + stem + ".csv"), **{k_: v_ for k_, v_ in style.items() if k_ != "xlsm"})
                     elif ch == "xlsx":
-                        src = os.path.join(d, stem + ".xlsx")
+                        src = os.path.join(d, stem + (".xlsm" if style.get("xlsm") else ".xlsx"))
                         write_xlsx(src, data, keep, units=True, ints=style["ints"], extra=style["extra"])  # the workbook template always carries its units row
                     if not style["units"] and ch in ("csv_dir", "csv_tuple"):
                         probe("file_without_units_row")
